@@ -14,7 +14,7 @@
  * along with this program.  If not, see <https://www.gnu.org/licenses/>.
  */
 
-use std::{cmp, thread};
+use std::{cmp, io, thread};
 use std::collections::{HashMap, HashSet};
 use std::fs::{self, canonicalize, create_dir_all, read_link, File, Metadata};
 use std::io::ErrorKind;
@@ -162,12 +162,21 @@ impl CopyHandle {
         }
     }
 
+    /// Some files report a length of 0 although they have content
+    /// (the ones under /proc, for one). Copy whatever can be read,
+    /// as cp does; returns the number of bytes found.
+    pub fn copy_unsized(&self) -> Result<u64> {
+        Ok(io::copy(&mut &self.infd, &mut &self.outfd)?)
+    }
+
     pub fn copy_file(&self, updates: &Arc<dyn StatusUpdater>) -> Result<u64> {
         if self.try_reflink()? {
             self.finalise()?;
             return Ok(self.metadata.len());
         }
-        let total = if probably_sparse(&self.infd)? {
+        let total = if self.metadata.len() == 0 {
+            self.copy_unsized()?
+        } else if probably_sparse(&self.infd)? {
             self.copy_sparse(updates)?
         } else {
             self.copy_bytes(self.metadata.len(), updates)?
